@@ -49,6 +49,13 @@ CHECKS = {
         technique=MC_TECH + " (all token sequences up to a bound + all generated programs up to k constructs, differential between parsers and against the generator's tree)",
         design="DESIGN.md §4 C06",
     ),
+    "C07": dict(
+        category="exploration",
+        text="On the real FileImportResolver (search path assembled by the real MiscOpts::import_resolver through clap and JSONNET_PATH) over a scratch directory tree, behind a recording and fault-injecting wrapper: every placement of a file over importer dir/-J dirs/JSONNET_PATH dirs x every flag order x kind x path spelling x importer location against the search-order model; every import digraph over three files with strict/lazy-read/lazy-unread/importstr/importbin edges against the reference interpreter plus load-once, evaluate-once and needed-files-only invariants; every history of imports (13 targets x 3 kinds, incl. syntax/runtime errors, strict and lazy cycles, missing, directory, non-UTF-8, symlink and dotted spellings) and one-shot resolve/load faults on a persistent State against the fresh-state outcome of each operation, plus a breadth-first search over merged model states.",
+        note="Trusted: the search-order model (40 lines), the cache model of the histories, the reference interpreter for graph results. Unreadable (mode 000) targets are not enumerated (harness runs as root). async_import.rs is not driven.",
+        technique=MC_TECH + " (exhaustive layouts x graphs; explicit-state exploration of import/fault histories on the real State, differential against fresh-state outcomes)",
+        design="DESIGN.md §4 C07",
+    ),
     "C08": dict(
         category="exploration",
         text="Every composition (depth <= 2 over a 176-instance menu of slices/std.slice/reverse/repeat/concatenation/map/filter/removeAt/flatten/sort/set/join/copies, depth 3 over a reduced menu) of view-producing operations over 12 small base arrays and 4 bases around the 1000-element concatenation threshold; each composed array is built once and probed at every index from -2 to len+2 (and 0.5), for length, equality/ordering against a copy in both directions, iteration, folds, std functions and manifestation; the reference interpreter represents every array as a plain vector. Failing compositions are shrunk to a minimal operation chain.",
